@@ -98,7 +98,10 @@ impl List {
         // contiguous and counted: a table whose occupied slots disagree with the announced
         // count (e.g. more occupied slots than the count) would never accept another coupon.
         let mut list = List::new(lg_arr);
-        if !empty && coupon_count > 0 {
+        // An updatable image stores all its slots even when it announces no coupon: they are read
+        // (and must then be empty) whenever they are present.
+        let slots_present = !compact && cursor.remaining() >= capacity * 4;
+        if !empty && (coupon_count > 0 || slots_present) {
             for i in 0..stored {
                 let coupon = cursor.read_u32_le().map_err(|_| {
                     Error::insufficient_data(format!(
